@@ -501,6 +501,75 @@ pub fn run(thorough: bool) -> Report {
         }
         let _ = total;
     }
+    // A stored reply is the value an assignment would have stored, also under = and <> (which a
+    // listing of the variable cannot tell apart); and the records of a run with tracing on, minus
+    // the trace records, are those of the run with tracing off.
+    {
+        let run = |lines: &[String], immediate: Option<&str>, replies: &[&str], tracing: bool| -> (Vec<String>, Vec<Ev>) {
+            let mut s = Sess::new();
+            s.it.enable_tracing = tracing;
+            let mut hist: Vec<Ev> = lines.iter().map(|l| Ev::Line(l.clone())).collect();
+            let _ = load_program(&mut s, lines);
+            s.recs.clear();
+            let mut it = replies.iter().map(|r| r.to_string());
+            let first = immediate.unwrap_or("RUN");
+            hist.push(Ev::LineToIdle(first.to_string()));
+            let end = s.run_line(first, &mut it, 300);
+            let mut t: Vec<String> = s.recs.iter().filter(|r| !matches!(r, Rec::Trace(_) | Rec::Reply(_))).map(|r| format!("{:?}", r)).collect();
+            t.push(format!("{:?}", end));
+            (t, hist)
+        };
+        // (reply, the value its first item stands for)
+        let pairs: [(&str, &str); 7] = [("5", "5"), (" 42 , 7", "42"), ("abc", "abc"), ("\"q r\"", "q r"), ("-7", "-7"), ("0.5", "0.5"), ("x y", "x y")];
+        for target in ["A$", "N$(3)"] {
+            for (reply, item) in pairs {
+                evals += 1;
+                nontrivial += 1;
+                let tail = vec![
+                    format!("20 IF {} = \"{}\" THEN PRINT \"same\" ELSE PRINT \"differs\"", target, item),
+                    format!("30 PRINT {t} <> \"{i}\"; {t} < \"{i}\"; {t} >= \"{i}\"; \"{i}\" = {t}; {t} = {t}", t = target, i = item),
+                    format!("40 B$ = {}: PRINT B$ = \"{}\"", target, item),
+                ];
+                let mut with_input = vec![format!("10 INPUT {}", target)];
+                with_input.extend(tail.clone());
+                let mut with_let = vec![format!("10 {} = \"{}\"", target, item)];
+                with_let.extend(tail);
+                let (got, hist) = run(&with_input, None, &[reply], false);
+                let (want, _) = run(&with_let, None, &[], false);
+                let got_prints: Vec<&String> = got.iter().filter(|x| x.starts_with("Print")).collect();
+                let want_prints: Vec<&String> = want.iter().filter(|x| x.starts_with("Print")).collect();
+                if got_prints != want_prints {
+                    rep.add(Violation {
+                        signature: format!("INPUT {} reply {:?}: comparisons differ from those after the assignment", target, reply),
+                        detail: format!("{:?} with reply {:?} prints {:?}; {:?} prints {:?}", with_input, reply, got_prints, with_let, want_prints),
+                        case: case_history(&hist, false, false),
+                    });
+                }
+            }
+        }
+        let traced: Vec<(Vec<&str>, Option<&str>, Vec<&str>)> = vec![
+            (vec!["10 INPUT X", "20 PRINT X"], None, vec!["abc", "x", "5"]),
+            (vec!["10 IF 1 THEN INPUT X ELSE PRINT 0", "20 PRINT X"], None, vec!["abc", "5"]),
+            (vec!["10 FOR I = 1 TO 2: INPUT A(I): NEXT I", "20 PRINT A(1);A(2)"], None, vec!["q", "1,2", "r", "3"]),
+            (vec!["10 PRINT \"AGE\";: INPUT Y$: PRINT Y$"], None, vec!["7"]),
+            (vec![], Some("PRINT \"AGE\";: INPUT A: PRINT A"), vec!["old", "7"]),
+            (vec!["10 GOSUB 100: PRINT X: END", "100 PRINT \"T\";: INPUT X: RETURN"], None, vec!["", "5"]),
+        ];
+        for (lines, immediate, replies) in traced {
+            evals += 1;
+            nontrivial += 1;
+            let lines: Vec<String> = lines.iter().map(|l| l.to_string()).collect();
+            let (off, _) = run(&lines, immediate, &replies, false);
+            let (on, hist) = run(&lines, immediate, &replies, true);
+            if on != off {
+                rep.add(Violation {
+                    signature: format!("tracing changes what an INPUT run shows: {:?}", immediate.map(|s| s.to_string()).unwrap_or_else(|| lines[0].clone())),
+                    detail: format!("{:?} {:?} with replies {:?}: tracing off {:?}; tracing on, trace records removed {:?}", lines, immediate, replies, off, on),
+                    case: case_history(&hist, false, true),
+                });
+            }
+        }
+    }
     let (gp, gp_req, gp_ends, gp_viol) = grammar_pass(thorough);
     evals += gp;
     nontrivial += gp_req;
